@@ -656,7 +656,7 @@ STRAY = (')', '(', ',', '=', 'if', ':', '+', 'x', ']', 'for', '*', '@', ';', '1'
 
 def params(tier):
     if tier == 'quick':
-        return {'examples': 220, 'wall': 80, 'case_timeout': 60}
+        return {'examples': 500, 'wall': 100, 'case_timeout': 60}
 
     return {'examples': 5000, 'wall': 600, 'case_timeout': 120}
 
